@@ -43,15 +43,21 @@ structure Adv (s s' : St) (new : List BLine) (n : Nat) : Prop where
   cnt : s'.varCounter = s.varCounter + n
   funcs : s'.funcs = s.funcs
   fcode : s'.functionsCode = s.functionsCode
+  fors : s'.fors = s.fors
+  ends : s'.endLabels = s.endLabels
+  ifs : s'.ifs = s.ifs
+  fcnt : s'.forCounter = s.forCounter
+  icnt : s'.ifCounter = s.ifCounter
 
-theorem Adv.refl (s : St) : Adv s s [] 0 := ⟨rfl, rfl, rfl, rfl⟩
+theorem Adv.refl (s : St) : Adv s s [] 0 := ⟨rfl, rfl, rfl, rfl, rfl, rfl, rfl, rfl, rfl⟩
 
 theorem Adv.trans {s s1 s2 : St} {a b : List BLine} {m n : Nat} (h1 : Adv s s1 a m) (h2 : Adv s1 s2 b n) :
     Adv s s2 (b ++ a) (m + n) :=
   ⟨by rw [h2.code, h1.code, List.append_assoc], by rw [h2.cnt, h1.cnt, Nat.add_assoc], by rw [h2.funcs, h1.funcs],
-   by rw [h2.fcode, h1.fcode]⟩
+   by rw [h2.fcode, h1.fcode], by rw [h2.fors, h1.fors], by rw [h2.ends, h1.ends], by rw [h2.ifs, h1.ifs],
+   by rw [h2.fcnt, h1.fcnt], by rw [h2.icnt, h1.icnt]⟩
 
-theorem Adv.ofAdvB (s : St) (new : List BLine) (n : Nat) : Adv s (advB s new n) new n := ⟨rfl, rfl, rfl, rfl⟩
+theorem Adv.ofAdvB (s : St) (new : List BLine) (n : Nat) : Adv s (advB s new n) new n := ⟨rfl, rfl, rfl, rfl, rfl, rfl, rfl, rfl, rfl⟩
 
 theorem HoldsD.mono {t v : String} {k k' : Nat} {ρ ρ' : Store} (h : HoldsD t v k ρ) (hk : k ≤ k')
     (hf : ∀ x, (∀ j, k ≤ j → x ≠ helperName j) → ρ' x = ρ x) : HoldsD t v k' ρ' := by
